@@ -50,10 +50,10 @@ RULE = ("a case = (mask, anisotropic pixel scales, origin) + either a sub-size m
         "(kind, mask bits, scales, origin, sub map | function parameters, thresholds, schedule); non-trivial = some "
         "sub-size > 1 (uniform/adaptive cases) resp. the reference result differs from the pixel-centre values in "
         "at least one pixel (iterate cases)")
-BOUNDS = {"quick": "masks up to 7x8; 1440 uniform-map cases, 720 adaptive-scheme cases, 1920 iterate cases "
-                   "(schedules [2,4] [2,4,8] [3,5] [4]; accuracies 0.5/0.99/0.9999; tolerances None/1e-3/1e-1), 3 D6 cases",
-          "thorough": "masks up to 7x8; 75000 uniform-map cases, 37500 adaptive-scheme cases, 112500 iterate cases "
-                      "(additionally schedule [2,4,8,16]), 3 D6 cases"}
+BOUNDS = {"quick": "masks up to 7x8; 4080 cases = 1530 uniform-map + 510 adaptive-scheme + 2040 iterate cases "
+                   "(schedules [2,4] [2,4,8] [3,5] [4]; accuracies 0.5/0.99/0.9999; tolerances None/1e-3/1e-1) + 3 D6 cases",
+          "thorough": "masks up to 7x8; 150000 cases = 56250 uniform-map + 18750 adaptive-scheme + 75000 iterate cases "
+                      "(additionally schedule [2,4,8,16]) + 3 D6 cases"}
 EXHAUSTIVE = {"quick": False, "thorough": False}
 ASSUMPTIONS = [
     "sub-pixel coordinates compared with the closed formula to 1e-12*max(1,|coordinate|_inf); binned values to "
@@ -78,7 +78,7 @@ MIN_MONITORS = {"*": {"grid.formula": 20, "grid.count": 20, "index.slim_for_sub_
                       "sampler.array_via_func": 20, "decorator.plain.one_call_with_centres": 5,
                       "decorator.plain.result": 5, "decorator.sub.probe_grid": 20, "decorator.sub.binned": 20,
                       "decorator.container": 5, "decorator.adaptive.map_readable": 10,
-                      "decorator.adaptive.binned": 10, "iterate.rule": 50, "iterate.result_container": 50}}
+                      "decorator.adaptive.probe_grid": 10, "decorator.adaptive.binned": 10, "iterate.rule": 50, "iterate.result_container": 50}}
 
 SUB_MAX = 8
 FRACS = (0.5, 0.99, 0.9999)
@@ -88,16 +88,23 @@ SCHEDULES_THOROUGH = SCHEDULES + ([2, 4, 8, 16],)
 TIE = 1e-9
 
 
+# every unit interleaves the three case kinds (so every worker - and the evidence samples - see all of them);
+# global case number g -> (kind, per-kind index)
+CYCLE = ("uniform", "iterate", "uniform", "iterate", "adaptive", "iterate", "uniform", "iterate")
+TOTAL = {"quick": 4080, "thorough": 150000}
+
+
+def kind_index(g):
+    c, pos = divmod(g, len(CYCLE))
+    kind = CYCLE[pos]
+    return kind, c * CYCLE.count(kind) + CYCLE[:pos].count(kind)
+
+
 def plan(tier, seed):
-    nu, na, ni = (1440, 720, 1920) if tier == "quick" else (75000, 37500, 112500)
-    cu, ca, ci = (48, 48, 48) if tier == "quick" else (250, 250, 250)
+    n, ch = TOTAL[tier], (48 if tier == "quick" else 240)
     units = [{"kind": "d6", "w": 5}]
-    for s in range(0, nu, cu):
-        units.append({"kind": "uniform", "start": s, "stop": min(nu, s + cu), "w": (min(nu, s + cu) - s) * 1.0})
-    for s in range(0, na, ca):
-        units.append({"kind": "adaptive", "start": s, "stop": min(na, s + ca), "w": (min(na, s + ca) - s) * 0.5})
-    for s in range(0, ni, ci):
-        units.append({"kind": "iterate", "start": s, "stop": min(ni, s + ci), "w": (min(ni, s + ci) - s) * 1.0})
+    for s in range(0, n, ch):
+        units.append({"kind": "mix", "start": s, "stop": min(n, s + ch), "w": min(n, s + ch) - s})
     return units
 
 
@@ -491,7 +498,8 @@ def check_dispatch(ctx, p, res, gin, m, scales, origin, sub, f, fd, variant, W, 
     calls = [(t, a.shape) for (t, a, _) in p.log]
     if (sub == 1).all():
         # plain evaluation: exactly one call, with the grid itself (the pixel centres), result = f(centres) untouched
-        one = len(p.log) == 1 and p.log[0][1].shape == gin.shape and np.array_equal(p.log[0][1], gin)
+        one = (len(p.log) == 1 and p.log[0][1].shape == gin.shape and np.array_equal(p.log[0][1], gin)
+               and ctx.close(gin, ref.slim_centres(m, scales, origin), 1e-12))
         ctx.check(one, "decorator.plain.one_call_with_centres", calls=calls, variant=variant, function=fd, **W)
         got = _np(res.slim) if hasattr(res, "slim") else _np(res)
         ctx.check(got.shape == (n,) and np.array_equal(got, f(gin)), "decorator.plain.result", expected=lambda: f(gin), got=got,
@@ -644,9 +652,10 @@ def run_unit(ctx, u):
     if u["kind"] == "d6":
         check_d6(ctx)
         return
-    fn = {"uniform": check_uniform, "adaptive": check_adaptive, "iterate": check_iterate}[u["kind"]]
-    for i in range(u["start"], u["stop"]):
-        fn(ctx, i)
+    fn = {"uniform": check_uniform, "adaptive": check_adaptive, "iterate": check_iterate}
+    for g in range(u["start"], u["stop"]):
+        kind, j = kind_index(g)
+        fn[kind](ctx, j)
 
 
 def post(merged, inconclusive, tier):
